@@ -361,6 +361,12 @@ public:
         o.str("lambdaUsr", usr(Op));
         enqueue(Op);
       }
+      // variables captured BY COPY (explicitly or through a [=] default): the lambda sees their value at its creation
+      std::vector<std::string> copies;
+      for (const LambdaCapture &Cap : LE->captures())
+        if (Cap.capturesVariable() && Cap.getCaptureKind() == LCK_ByCopy)
+          copies.push_back(jstr(Cap.getCapturedVar()->getNameAsString()));
+      if (!copies.empty()) o.raw("copyCaptures", jlist(copies));
     } else if (const auto *DS = dyn_cast<DeclStmt>(S)) {
       std::vector<std::string> ds;
       for (const Decl *D : DS->decls()) {
